@@ -20,7 +20,7 @@ func init() {
 func c09ManyKeys() {
 	var e bigbuff.Exclusive
 	type side struct {
-		key              string
+		key              any
 		gate             chan struct{}
 		running          int
 		overlap          bool
@@ -28,7 +28,7 @@ func c09ManyKeys() {
 		firstRet, secRet bool
 		execs            int
 	}
-	mk := func(key string) *side { return &side{key: key, gate: make(chan struct{})} }
+	mk := func(key any) *side { return &side{key: key, gate: make(chan struct{})} }
 	open := func(s *side) {
 		go func() {
 			e.Call(s.key, func() (interface{}, error) {
@@ -58,7 +58,27 @@ func c09ManyKeys() {
 		}()
 		simrt.Quiesce(-1)
 	}
-	a, b := mk("A"), mk("B")
+	// two keys that differ as interface values are two keys, however alike they look
+	type p1 struct{ x int }
+	type p2 struct{ x int }
+	type named string
+	pairs := [][2]any{
+		{"A", "B"}, {"A", "B"}, {"A", "B"},
+		{nil, (*p1)(nil)},
+		{(*p1)(nil), (*p2)(nil)},
+		{1, int64(1)},
+		{"1", 1},
+		{"A", named("A")},
+		{p1{1}, p2{1}},
+		{&p1{1}, &p1{1}},
+		{[1]int{0}, [1]int32{0}},
+		{0.0, false},
+	}
+	pair := pairs[simrt.Draw(len(pairs))]
+	if pair[0] != "A" || pair[1] != "B" {
+		simrt.Probe("look_alike_keys")
+	}
+	a, b := mk(pair[0]), mk(pair[1])
 	open(a)
 	if simrt.Failed() {
 		return
@@ -83,7 +103,7 @@ func c09ManyKeys() {
 		return
 	}
 	if !b.firstStarted {
-		simrt.Failf("C09.cross-key-delay", "the work function of key B has not begun at quiescence while the work function of key A is running (%d other keys came and went in between)", m)
+		simrt.Failf("C09.cross-key-delay", "the work function of key %#v (%T) has not begun at quiescence while the work function of key %#v (%T) is running (%d other keys came and went in between): different keys are not serialised against each other", b.key, b.key, a.key, a.key, m)
 		return
 	}
 	first, second := b, a
@@ -96,7 +116,7 @@ func c09ManyKeys() {
 		return
 	}
 	if !first.firstRet || !first.secRet {
-		simrt.Failf("C09.cross-key-delay", "the work function of key %s returned; quiescent, and of its two calls (one running, one waiting behind it) returned: first=%v second=%v, while the work function of key %s is still running: a long-running work function for one key must not delay calls for another (%d other keys came and went between the two keys' first calls)", first.key, first.firstRet, first.secRet, second.key, m)
+		simrt.Failf("C09.cross-key-delay", "the work function of key %#v returned; quiescent, and of its two calls (one running, one waiting behind it) returned: first=%v second=%v, while the work function of key %#v is still running: a long-running work function for one key must not delay calls for another (%d other keys came and went between the two keys' first calls)", first.key, first.firstRet, first.secRet, second.key, m)
 		return
 	}
 	close(second.gate)
@@ -105,16 +125,16 @@ func c09ManyKeys() {
 		return
 	}
 	if !second.firstRet || !second.secRet {
-		simrt.Failf("C09.stuck", "every work function has returned; calls of key %s returned: first=%v second=%v", second.key, second.firstRet, second.secRet)
+		simrt.Failf("C09.stuck", "every work function has returned; calls of key %#v returned: first=%v second=%v", second.key, second.firstRet, second.secRet)
 		return
 	}
 	for _, s := range []*side{a, b} {
 		if s.overlap {
-			simrt.Failf("C09.overlap", "two work functions of key %s ran at the same time", s.key)
+			simrt.Failf("C09.overlap", "two work functions of key %#v ran at the same time", s.key)
 			return
 		}
 		if s.execs < 1 || s.execs > 2 {
-			simrt.Failf("C09.stuck", "key %s: %d executions for two calls, the second of which arrived while the first was running", s.key, s.execs)
+			simrt.Failf("C09.stuck", "key %#v: %d executions for two calls, the second of which arrived while the first was running", s.key, s.execs)
 			return
 		}
 	}
